@@ -263,3 +263,43 @@ for which, marker_cls in (("all", _All), ("any", _Any)):
             c.models = [(INTR._has_intrinsic_replacement, lambda it, fn: True)]
             c.interp_flags = {"class_call_models": {OUT.Value: _mk_value, OUT.All: _mk_all, OUT.Any: _mk_any}}
             con.cases.append(c)
+
+
+# ---- `x and y and ...` / `x or y or ...` (ast.BoolOp branch of apply_impl): the truth value of the conjunction / disjunction of
+# ALL operands, a constant exactly when the run-time operands cannot change it (same arrangements as all() / any())
+_Prep.apply = getattr(_Prep, "apply", lambda self, node: None)
+
+
+def boolop_spec(kinds, which):
+    inner = fold_spec(kinds, which)
+
+    def spec(sx, self, inp):
+        return inner(sx, self, None, [sx.it.operands], {})
+
+    return spec
+
+
+con = contract("cohdl._compiler.frontend._prepare_ast:PrepareAst.apply_impl", PROPS)
+for which, opsym in (("all", "and"), ("any", "or")):
+    for n in range(2, 4):
+        for kinds in _it.product("qTFr", repeat=n):
+            kinds = "".join(kinds)
+            node = ast.parse(f" {opsym} ".join(f"x{i}" for i in range(n)), mode="eval").body
+            ARGS = fold_shape(kinds, which)
+            SELF = Built(ARGS.names, (lambda A: lambda env: SObj(_Prep, _last_apply_inp=None, f_operands=A.make(None, env)))(ARGS), lambda a: "<self>", lambda a: None, ARGS._assume if hasattr(ARGS, "_assume") else None)
+            INP = Built([], (lambda nd: lambda env: nd)(node), lambda a: "<boolop>", lambda a: None)
+            c = Case(f"boolop:{opsym}:[{kinds}]", [SELF, INP], boolop_spec(kinds, which))
+            c.native = False
+
+            def setup_bo(it, ctx, args, env, node=node):
+                it.operands = args[0].fields["f_operands"]
+                it.boolop_node = node
+
+            def _apply_operand(it, self, sub):
+                idx = [i for i, v in enumerate(it.boolop_node.values) if v is sub][0]
+                return SObj(_Expr, f_result=it.operands[idx])
+
+            c.setup = setup_bo
+            c.models = [(_Prep.apply, _apply_operand)]
+            c.interp_flags = {"class_call_models": {OUT.Value: _mk_value, OUT.All: _mk_all, OUT.Any: _mk_any}}
+            con.cases.append(c)
